@@ -65,3 +65,28 @@ Proof.
   exists ["Z";"m";"9";"v";"Y";"g"]%byte, 2%nat.
   repeat split; try reflexivity; try (cbn; repeat constructor).
 Qed.
+
+(* ---- the armor around the base64 text (dec.c dec_unarmor, model CredModel.dec_unarmor) ----
+   What is decoded is ALL the text between the prefix and the LAST suffix: an armored string is accepted only in the
+   shape  whitespace* PREFIX b64 SUFFIX tail  with no suffix in tail and b64 accepted as a whole by the decoder above;
+   if the decoder refuses b64 the request fails with EMUNGE_BAD_CRED; a suffix inside the text makes it undecodable. *)
+From Coq.Strings Require Import String.
+From MV Require Import CredModel ArmorProofs.
+From MV.gen Require Import GenCred.
+
+Theorem C19_unarmor_accepts_only : forall data body, dec_unarmor data = inl body ->
+  exists ws b64 tail, data = ws ++ pfx ++ b64 ++ sfx1 :: tail /\ forallb is_space ws = true /\
+    forallb (fun c => negb (Byte.eqb c sfx1)) tail = true /\ decode_block b64 = (false, body).
+Proof. exact unarmor_accepts_only. Qed.
+Print Assumptions C19_unarmor_accepts_only.
+
+Theorem C19_unarmor_rejects : forall ws b64 tail body,
+  forallb is_space ws = true -> forallb (fun c => negb (Byte.eqb c sfx1)) tail = true ->
+  decode_block b64 = (true, body) ->
+  dec_unarmor (ws ++ pfx ++ b64 ++ sfx1 :: tail) = inr (e_bad_cred, str "Failed to base64-decode credential"%string).
+Proof. exact unarmor_rejects. Qed.
+Print Assumptions C19_unarmor_rejects.
+
+Theorem C19_suffix_inside_rejected : forall a b, fst (decode_block (a ++ sfx1 :: b)) = true.
+Proof. exact suffix_inside_rejected. Qed.
+Print Assumptions C19_suffix_inside_rejected.
